@@ -33,7 +33,7 @@ pub trait LimitSort: Iterator + Sized {
     fn limit_sort<F>(self, limit: usize, sort_fn: F) -> (ret: LimitSortIter<Self::Item, Self, F>)
     where
         F: (FnMut(&Self::Item, &Self::Item) -> Ordering),
-        requires limit <= 0x4000_0000, self.obeys_prophetic_iter_laws(), self.decrease() is Some,
+        requires limit <= 0x7fff_ffff_ffff_ffff, self.obeys_prophetic_iter_laws(), self.decrease() is Some,
         ensures ret.ready(), !ret.done, ret.limit == limit, ret.source == self,
     {
         LimitSortIter { sort_fn, source: self, buffer: Vec::with_capacity(limit * 2), limit, stable: true, done: false }
@@ -41,7 +41,7 @@ pub trait LimitSort: Iterator + Sized {
     fn limit_sort_unstable<F>(self, limit: usize, sort_fn: F) -> (ret: LimitSortIter<Self::Item, Self, F>)
     where
         F: (FnMut(&Self::Item, &Self::Item) -> Ordering),
-        requires limit <= 0x4000_0000, self.obeys_prophetic_iter_laws(), self.decrease() is Some,
+        requires limit <= 0x7fff_ffff_ffff_ffff, self.obeys_prophetic_iter_laws(), self.decrease() is Some,
         ensures ret.ready(), !ret.done, ret.limit == limit, ret.source == self,
     {
         LimitSortIter { sort_fn, source: self, buffer: Vec::with_capacity(limit * 2), limit, stable: false, done: false }
@@ -90,7 +90,7 @@ where
     // the items still to be handed out, in order (the buffer is kept reversed and popped from the end)
     pub open spec fn pending(&self) -> Seq<T> { self.buffer@.reverse() }
     pub open spec fn ready(&self) -> bool {
-        self.source.obeys_prophetic_iter_laws() && self.source.decrease() is Some && self.limit <= 0x4000_0000 && (!self.done ==> self.buffer@.len() == 0)
+        self.source.obeys_prophetic_iter_laws() && self.source.decrease() is Some && self.limit <= 0x7fff_ffff_ffff_ffff && (!self.done ==> self.buffer@.len() == 0)
     }
 }
 // @item rust/core/src/utils/limitsort.rs :: impl Iterator for LimitSortIter::{next}
@@ -118,7 +118,7 @@ where
         let ghost was_done = *done;
         if !*done {
             loop
-                invariant source.obeys_prophetic_iter_laws(), source.decrease() is Some, limit <= 0x4000_0000,
+                invariant source.obeys_prophetic_iter_laws(), source.decrease() is Some, limit <= 0x7fff_ffff_ffff_ffff,
                     0 <= consumed <= all.len(), source.remaining() == all.skip(consumed),
                     prov(buffer@, all, idx, consumed),
                     buffer@.len() <= consumed, buffer@.len() >= (if consumed < limit { consumed } else { limit as int }),
@@ -210,7 +210,7 @@ impl<I: Iterator> LimitSort for I {}
 // (In units grams / store / search the call `limit_sort_all(items, limit, cmp)` that rule R30 leaves in place of the selection
 // stage carries exactly this contract.)
 pub fn limit_sort_all<T, F: FnMut(&T, &T) -> Ordering>(items: Vec<T>, limit: usize, cmp: F) -> (r: Vec<T>)
-    requires limit <= 0x4000_0000,
+    requires limit <= 0x7fff_ffff_ffff_ffff,
     ensures r@.len() == (if items@.len() < limit { items@.len() } else { limit as nat }), // [LSsel]
         exists|idx: Seq<int>| selection(r@, items@, idx), // [LSsel]
 {
